@@ -129,6 +129,7 @@ func replaySchedule(sc schedule, limit time.Duration) outcome {
 	overlap := map[string][]string{} // proc -> procs whose exclusive call on the same key was in flight when it started
 	exclResult := map[string]*callResult{}
 	stuck := map[string]bool{}
+	waiter := map[string]bool{} // goroutines that joined an exclusive decode in progress
 
 	violate := func(key, format string, a ...any) {
 		out.Violations = append(out.Violations, fmt.Sprintf(format, a...))
@@ -167,6 +168,21 @@ func replaySchedule(sc schedule, limit time.Duration) outcome {
 			stuck[st.Proc] = true
 			violate("deadlock/"+sc.Graph+"/"+st.Action, "goroutine %s does not come back from step %d %s(%s) although the specification enables it: blocked inside the library", st.Proc, i+1, st.Action, st.Proc)
 			break
+		}
+		// ExclusiveOnce on the real code: a goroutine that joined an exclusive
+		// decode in progress waits for its outcome and never decodes itself
+		if st.Action == "Call" && st.Op == "DecodeExclusive" && pk.Gate == "excl-wait" {
+			waiter[st.Proc] = true
+		}
+		if waiter[st.Proc] {
+			switch pk.Gate {
+			case "idle":
+				delete(waiter, st.Proc)
+			case "excl-wait":
+			default:
+				violate("exclusive-once/"+sc.Graph, "goroutine %s joined an exclusive decode of %s that was in progress, but runs the decode itself (reached %q) instead of sharing the outcome", st.Proc, exclActive[st.Proc], pk.Gate)
+				delete(waiter, st.Proc)
+			}
 		}
 		// the model value created by this step, if any
 		var mstate map[string]any
